@@ -113,6 +113,15 @@ def blend(col, case):
         want = np.array([Ts[t] for t in sorted(Ts)])
         # the two joints computed the way a user would: Tt - 23 and Tt in floating point
         joint_lo, joint_hi = C.triple_point_water - 23.0, C.triple_point_water
+        # whole-kelvin temperatures as an INTEGER-typed array: the pressures are not whole numbers
+        ints = sorted(t for t in Ts if t.denominator == 1)
+        try:
+            gi = np.asarray(A.e_eq_mixed_mk(np.array([int(t) for t in ints])), dtype=float)
+            col.count(len(ints))
+            if not allclose(gi, np.array([Ts[t] for t in ints]), 1e-9):
+                col.violation("mixed-branch-logic-int-array", dict(rep, expected=[Ts[t] for t in ints], observed=gi.tolist()))
+        except Exception as ex:
+            col.violation("mixed-raises-" + type(ex).__name__ + "-int-array", dict(rep, observed=repr(ex)[:200]))
         for shape in ("array", "scalar", "0d", "2d", "3d"):
             try:
                 if shape == "array":
